@@ -59,8 +59,28 @@ def gen_case(run, tie):
             ts[b][f] = ts[a][f]
         if not audit:
             ts[b]["uuid"] = ts[a]["uuid"]
+    uuid_only = False
+    if not tie and len(ts) >= 2 and r.random() < 0.35:
+        # distinguishable by the UUID alone (one of them may have none): still byte-identical outputs
+        import uuid as _u
+        a, b = r.sample(range(len(ts)), 2)
+        for f in ("ts", "code", "desc"):
+            ts[b][f] = ts[a][f]
+        ts[a]["uuid"] = str(_u.UUID(int=r.getrandbits(128), version=4))
+        ts[b]["uuid"] = None if (not audit and r.random() < 0.5) else str(_u.UUID(int=r.getrandbits(128), version=4))
+        uuid_only = True
+    prices = None
+    if r.random() < 0.35:
+        # price conversion: several commodities with price entries at the same instant
+        used = sorted({p["comm"] for t in ts for p in t["posts"] if p["comm"] and p["comm"] != "EUR"} | {"USD", "ACME"})
+        lines = []
+        for day in ("2020-01-01", "2022-06-30"):
+            for c in used:
+                lines.append("P %s %s %d.%d EUR" % (day, c, r.randint(1, 9), r.randint(0, 99)))
+        r.shuffle(lines)
+        prices = {"db": "\n".join(lines) + "\n", "lookup": r.choice(["last-price", "given-time", "txn-time"])}
     return {"txns": ts, "audit": audit, "tie": tie, "group_by": r.choice(["year", "month", "date", "iso-week", "iso-week-date"]),
-            "eq_sel": r.random() < 0.3}
+            "eq_sel": r.random() < 0.3, "uuid_only": uuid_only, "prices": prices, "reruns": 4 if prices else 1}
 
 
 def arrangements(run, c):
@@ -105,13 +125,24 @@ def main(run):
         cases.append(gen_case(run, tie=(run.rng.random() < 0.25)))
     reqs, meta = [], []
     for ci, c in enumerate(cases):
+        pr = c.get("prices")
         toml = J.make_toml(audit="true" if c["audit"] else "false", group_by=c["group_by"],
                            targets='"balance", "balance-group", "register"',
-                           eq_acc=(', accounts = ["a.*", "e.*"]' if c.get("eq_sel") else ""))
+                           eq_acc=(', accounts = ["a.*", "e.*"]' if c.get("eq_sel") else ""),
+                           price=('[price]\ndb-path = "prices.db"\nlookup-type = "%s"\n' % pr["lookup"]) if pr else "",
+                           rcomm=('commodity = "EUR"' if pr else ""))
+        conf = {"toml": toml}
+        overl = None
+        if pr:
+            conf["pricedb"] = pr["db"]
+            if pr["lookup"] == "given-time":
+                overl = {"before_time": "2023-01-01T00:00:00Z"}
         reps = c.get("reruns", 1)
         for name, load, order in arrangements(run, c):
             for k in range(reps if name == "rerun" else 1):
-                rq = {"conf": {"toml": toml}, "ops": OPS}
+                rq = {"conf": conf, "ops": OPS}
+                if overl:
+                    rq["overlaps"] = overl
                 rq.update(load)
                 reqs.append(rq)
                 meta.append((ci, name, order))
